@@ -478,10 +478,19 @@ func (w *world) newDgram(c *simConn) *dgram {
 		d.payload = nil
 		d.raw = r.Tape.Bytes("garbage", r.Choice("glen", 80))
 	case kTruncated:
+		// cut either inside the SCION common/address header (cannot be parsed) or inside the filler of
+		// the payload (the embedded id survives, so an answer of the router can still be attributed)
+		d.payload = mkPayload(d.id, 20+plen)
 		full := w.scionPkt(addr.MustParseIA("1-ff00:0:300"), addr.MustParseIA("1-ff00:0:400"), remoteHost, remoteHost,
-			[]hopSpec{other(0), {in: 1, eg: 2, ours: true}, other(2)}, 1, true, true, ts, false, 30000, d.payload[:10])
-		d.payload = nil
-		d.raw = full[:r.Choice("trunc", len(full)-10)]
+			[]hopSpec{other(0), {in: 1, eg: 2, ours: true}, other(2)}, 1, true, true, ts, false, 30000, d.payload)
+		if r.Choice("trunc.where", 2) == 0 {
+			cut := 1 + r.Choice("trunc", 19+plen)
+			d.raw = full[:len(full)-cut]
+			d.payload = d.payload[:len(d.payload)-cut]
+		} else {
+			d.raw = full[:r.Choice("trunc", 36)]
+			d.payload = nil
+		}
 	case kBFD:
 		var cands []*intf
 		for _, in := range on {
